@@ -1,4 +1,4 @@
-import FatVerif.Proofs.DirReadSim9
+import FatVerif.Proofs.DirReadSim11
 /-! # C01 (simulation) — the effectful directory READER is the pure reader on the bytes of the image
 
 The directory code of the model (`Model/DirOps.lean`, programs over a device) and the slot-list algebra
@@ -332,6 +332,54 @@ example : (run (listDir (rootAt Ex.dev.fs 0)) Ex.dev).1 =
       [Names.encodeUtf16 "Hello.txt".toList, []] := by
   decide +kernel
 
+/-! ## `check_for_existence` and path walks (both kinds of directory) -/
+
+/-- the fixed root directory as a `DirView` -/
+def DirView.ofRoot {d : Dev} {N : Nat} (h : RootReadable d N) : DirView d (rootAt d.fs 0) where
+  S := fun o => .root (sliceAt (rootSliceOf d.fs) o)
+  N := N
+  src := fun o => (rootSliceOf d.fs).beginOff + o
+  room := fun o => (rootSliceOf d.fs).size - o
+  start := rfl
+  dir := root_dirSrc (rootSliceOf d.fs) N h.slots d h.noFault h.inside
+  fuel := h.fuel
+
+/-- a cluster-chain directory as a `DirView` -/
+def DirView.ofChain {d : Dev} {c0 : Nat} {ent : Option DirEntryEditor} {chain : List Nat}
+    (h : ChainReadable d c0 ent chain) : DirView d (.file (FileH.new (some c0) ent)) where
+  S := chainS (FileH.new (some c0) ent) chain d.fs.clusterSize
+  N := chain.length * (d.fs.clusterSize / 32)
+  src := chainSrc d.fs chain
+  room := chainRoom d.fs chain
+  start := rfl
+  dir := h.dir.dirSrc
+  fuel := h.fuel
+
+/-- **`checkForExistence_sim`, fixed root**: `check_for_existence(name, is_dir)` on the root directory does what
+    `DirAlias.checkForExistenceL` computes from the root slots of the image — the existing entry, the alias chosen
+    (the one the C16 theorems `dir_alias_fresh`, `dir_alias_legal`, `dir_alias_display_free` are about), or its error -/
+theorem checkForExistence_root_sim {d : Dev} {N : Nat} (h : RootReadable d N) (ha : d.fs.lfnAlloc = true) (env : Env)
+    (name : String) (isDir : Option Bool) :
+    Outcome (checkForExistence env (rootAt d.fs 0) name isDir) d (liftEOA (fun o => (rootSliceOf d.fs).beginOff + o))
+      (DirAlias.checkForExistenceL env.upper
+        (srcSlots d.img (fun o => (rootSliceOf d.fs).beginOff + o) N) name isDir 70000) :=
+  (root_dirSrc (rootSliceOf d.fs) N h.slots d h.noFault h.inside).checkForExistence_sim h.fuel ha env name isDir d
+    (SameVol.refl d)
+
+/-- the slots used there are the root slots -/
+theorem srcSlots_root {d : Dev} {N : Nat} (h : RootReadable d N) :
+    srcSlots d.img (fun o => (rootSliceOf d.fs).beginOff + o) N = rootDirSlots d.fs d.img := by
+  unfold srcSlots rootDirSlots rootSlots
+  rw [h.slots, Nat.mul_div_cancel_left N (by omega : 0 < 32)]
+
+/-- **`checkForExistence_sim`, cluster chain** -/
+theorem checkForExistence_chain_sim {d : Dev} {c0 : Nat} {ent : Option DirEntryEditor} {chain : List Nat}
+    (h : ChainReadable d c0 ent chain) (ha : d.fs.lfnAlloc = true) (env : Env) (name : String) (isDir : Option Bool) :
+    Outcome (checkForExistence env (.file (FileH.new (some c0) ent)) name isDir) d (liftEOA (chainSrc d.fs chain))
+      (DirAlias.checkForExistenceL env.upper (chainSlots d.fs d.img chain) name isDir 70000) := by
+  rw [← h.slots_eq]
+  exact h.dir.dirSrc.checkForExistence_sim h.fuel ha env name isDir d (SameVol.refl d)
+
 /-! ## non-vacuity: a sub-directory of two clusters (the listing crosses the cluster boundary through the FAT) -/
 
 namespace Ex2
@@ -379,5 +427,68 @@ example : (run (listDir (.file (FileH.new (some 2) none))) Ex2.dev).1 =
     ((DirSlots.listing (chainSlots Ex2.dev.fs Ex2.dev.img [2, 3])).map
         (fun e => (toDirEntryS (chainSrc Ex2.dev.fs [2, 3]) e).entryPos)) = [1536, 2080] := by
   decide +kernel
+
+/-! ## non-vacuity: a path walk from the fixed root into that sub-directory -/
+
+namespace Ex3
+
+def sfnSub : List Nat := [83, 85, 66, 32, 32, 32, 32, 32, 32, 32, 32]     -- "SUB        "
+
+/-- the short record of the directory `SUB`, first cluster 2 -/
+def subData : DirFileEntryData := (DirFileEntryData.new sfnSub 0x10).setFirstCluster (some 2) .fat16
+
+/-- the volume of `Ex2` with `SUB` as the first slot of the root region (sector 2) -/
+def bytes : List Nat :=
+  List.replicate 512 0 ++
+  ([0xF8, 0xFF, 0xFF, 0xFF, 3, 0, 0xFF, 0xFF] ++ List.replicate 504 0) ++
+  (subData.serialize ++ List.replicate 480 0) ++
+  ((DirFileEntryData.new Ex.sfn2 0x10).serialize ++ (List.replicate 15 Ex2.deleted).flatten) ++
+  ((lfnGenerate (Names.encodeUtf16 "Hello.txt".toList) (lfnChecksum Ex.sfn1)).flatten ++
+    (DirFileEntryData.new Ex.sfn1 0x20).serialize)
+
+def dev : Dev := { img := Img.ofBytes bytes 4096, fs := Ex2.fs }
+
+def env : Env := ⟨fun c => [c.toUpper]⟩
+
+/-- the entry of `SUB` as the library reads it from the root -/
+def subE : DirEntry := { data := subData, lfn := [], entryPos := 1024, rangeBegin := 0, rangeEnd := 32 }
+
+/-- the entry of `Hello.txt` as the library reads it from `SUB`: slots 16 (long name) and 17 (short record, at byte 32
+    of cluster 3) -/
+def fileE : DirEntry :=
+  { data := DirFileEntryData.new Ex.sfn1 0x20, lfn := Names.encodeUtf16 "Hello.txt".toList, entryPos := 2080,
+    rangeBegin := 512, rangeEnd := 576 }
+
+end Ex3
+
+theorem Ex3.root : RootReadable Ex3.dev 16 := ⟨rfl, by decide, by decide, by decide⟩
+
+open FatVerif.FileSim FatVerif.Fat in
+theorem Ex3.sub : ChainReadable Ex3.dev 2 (some Ex3.subE.editor) [2, 3] := by
+  have h2 : tabView Ex2.fs Ex3.dev.img 2 = .data 3 := by decide +kernel
+  have h3 : tabView Ex2.fs Ex3.dev.img 3 = .eoc := by decide +kernel
+  refine ⟨⟨rfl, ⟨by decide, by decide, by decide, by decide, by decide, by decide, by decide, by decide, by decide,
+    by decide, by decide⟩,
+    rfl, ?_, by decide, by decide, Or.inl rfl, (fun e he => by cases he; rfl), by decide, by decide⟩, by decide⟩
+  exact Chain.cons 2 3 [3] h2 (Chain.last 3 (fun n hn => by
+    have : tabView Ex3.dev.fs Ex3.dev.img 3 = .eoc := h3
+    rw [this] at hn; cases hn))
+
+theorem Ex3.sub_stream : DirEntry.dirStream Ex3.dev.fs Ex3.subE = .file (FileH.new (some 2) (some Ex3.subE.editor)) := by
+  decide +kernel
+
+/-- the pure resolution of `SUB/hello.TXT` (names match ignoring case) from the root finds the file entry in cluster 3 -/
+theorem Ex3.resolves :
+    ResolvesTo Ex3.dev Ex3.env (some false) 3 (rootAt Ex3.dev.fs 0) "SUB/hello.TXT" Ex3.fileE := by
+  have h1 : (DirView.ofRoot Ex3.root).lookup Ex3.env "SUB" (some true) = .ok Ex3.subE := by decide +kernel
+  have h2 : (DirView.ofChain Ex3.sub).lookup Ex3.env "hello.TXT" (some false) = .ok Ex3.fileE := by decide +kernel
+  refine ResolvesTo.step (name := "SUB") (rest := "hello.TXT") (by decide +kernel) (DirView.ofRoot Ex3.root) h1 ?_
+  rw [Ex3.sub_stream]
+  exact ResolvesTo.last (name := "hello.TXT") (by decide +kernel) (DirView.ofChain Ex3.sub) h2
+
+/-- … so (`openFile_sim`) `open_file("SUB/hello.TXT")` on the root returns the handle of that file, keeping the volume -/
+example : Reads (openFile Ex3.env 3 (rootAt Ex3.dev.fs 0) "SUB/hello.TXT") Ex3.dev
+    (FileH.new (Ex3.fileE.firstCluster Ex3.dev.fs) (some Ex3.fileE.editor)) :=
+  openFile_sim Ex3.resolves Ex3.dev (SameVol.refl _)
 
 end FatVerif.DirSim
